@@ -230,6 +230,7 @@ func merge(job reg.Job, rs []*reg.Result) *reg.Result {
 func runJobs(meta propMeta, tier string, only string) []*jobResult {
 	const slots = 16
 	sem := make(chan struct{}, slots)
+	var acq sync.Mutex
 	var wg sync.WaitGroup
 	var results []*jobResult
 	seed := os.Getenv("VERIF_SEED")
@@ -260,9 +261,11 @@ func runJobs(meta propMeta, tier string, only string) []*jobResult {
 			go func() {
 				defer wg.Done()
 				defer jwg.Done()
+				acq.Lock() // slots are taken atomically, otherwise 16 shards holding one slot each deadlock
 				for i := 0; i < procs; i++ {
 					sem <- struct{}{}
 				}
+				acq.Unlock()
 				defer func() {
 					for i := 0; i < procs; i++ {
 						<-sem
